@@ -599,6 +599,10 @@ func main() {
 				c.Eval(1)
 				c.Nontrivial(1)
 				c.Outcome(strings.SplitN(o, ":", 2)[0])
+				if (err != nil || o == "") && !strings.Contains(eb.String(), "go-qrllib") {
+					c.Cap("a first-call process could not be run (infrastructure): " + fmt.Sprint(err))
+					continue
+				}
 				if err != nil || o == "" {
 					st := eb.String()
 					if len(st) > 1500 {
